@@ -33,6 +33,10 @@ ASSUMPTIONS = [
     "iterations of an already started injected command during Pause are not judged here (known finding of C08)",
     "twin comparison skipped when the snippet contains a Block and the method has a Watch/Alarm inside a Block or changing inputs "
     "(the injected block legitimately delays the method's blocks)",
+    "a method error raised by a line inside an Alarm or Macro body that occurs only with the injection is not attributed to it (recorded "
+    "nested-interrupt reset of re-armed bodies, a matter of tick alignment); the twin comparison of such a case is skipped and counted",
+    "an edit op that resolves to different lines with and without the injection (the reported state differs by a tick or two when an "
+    "injected Block restarts Block Time) is a different edit; its outcome is not compared",
     "twin comparison skipped (and counted) after an accepted merge that shows C01's known defect (method state emptied): the method "
     "starts over there, with or without the injection",
 ]
@@ -50,6 +54,9 @@ EDIT_KINDS_W = ["append_end"] * 3 + ["append_scope"] * 3 + ["change"] * 2 + ["in
 # with the switch on the twin comparison of the method is skipped for these cases (counted as excluded_known:...); the
 # clauses about the injected code itself (exactly once, finalized also across the edit) are still judged.
 EXCLUDE_KNOWN_C01_MERGE = True
+# A method error raised by a line inside an Alarm or Macro body (bodies that are reset and run again) is the recorded
+# nested-interrupt reset family of C02/C04; the twin comparison is skipped for such a case and counted.
+EXCLUDE_RECORDED_NESTED_INTERRUPT_RESET = True
 C01_SIG = "C01:lost-state:all:merge-installs-stateless-program"
 
 SIG_CMD_LOST = "injected-cmd-never-finalized:edit-while-running"
@@ -175,6 +182,20 @@ def _keys_from_first_block(snippet, keys):
         if x["k"] in ("mark", "quick", "slow"):
             n += 1
     return []
+
+
+def _errors_in_repeated_bodies(A, S):
+    """method errors of the run whose failing line (key='<id>.<Instruction>' in the error text) lies in an Alarm or Macro body;
+    [] as soon as one error is elsewhere or cannot be located"""
+    import re
+    out = []
+    for e in A["error_events"]:
+        m = re.search(r"key='([^'.]+)\.", str(e[3]))
+        i = S.index.get(m.group(1)) if m else None
+        if i is None or not (S.info(i)["in_alarm"] or S.info(i)["in_macro"]):
+            return []
+        out.append(m.group(1))
+    return out
 
 
 def run_case(case):
@@ -317,10 +338,22 @@ def run_case(case):
     if reason is None:
         eA = [(r["op"], r["accepted"], r["info"].get("target")) for r in A["edits"]]
         eB = [(r["op"], r["accepted"], r["info"].get("target")) for r in B["edits"]]
-        if eA != eB:
+        same_target = [(a[0], a[2]) for a in eA] == [(b[0], b[2]) for b in eB]
+        err_rep = _errors_in_repeated_bodies(A, S) if not B["error_events"] else []
+        if not same_target:
+            # `idx` is resolved from the method state at the edit tick: an injected Block may delay a threshold line by a tick or
+            # two (Block Time restarts), so the same op can hit another line - another edit, not an outcome to compare
+            cl.append("twin-skipped:edit-resolved-to-different-line(timing)")
+        elif eA != eB:
             viol("method-changed:edit-outcome", "edit (op, accepted, target) with injection %s, without %s" % (eA, eB))
         elif B["error_events"]:
             cl.append("twin-skipped:method-error-without-injection")
+        elif err_rep and EXCLUDE_RECORDED_NESTED_INTERRUPT_RESET:
+            # recorded engine behaviour (C02 interrupt-in-repeated-body / C04 re-arm family): an Alarm or macro body that re-arms /
+            # is called again resets the nodes of a nested Watch/Alarm that is still executing (e.g. Wait: wait_start_time None ->
+            # TypeError).  Whether a run hits it is a matter of tick alignment, which an injection may shift; not attributed to it.
+            cl.append("twin-skipped:method-error-in-repeated-body")
+            info["excluded_reset"] = 1
         elif A["final_lines"] == B["final_lines"]:
             cl.append("twin-compared")
             if A["error_events"]:
@@ -367,6 +400,8 @@ def run_shard(col, cfg):
         vs, info = run_case(case)
         if info.get("excluded"):
             col.count("excluded_known:%s" % C01_SIG, info["excluded"])
+        if info.get("excluded_reset"):
+            col.count("excluded_known:C02:interrupt-in-repeated-body(method error of a line in an Alarm/Macro body)", 1)
         kinds = G.count_kinds(case["tree"])
         classes = sorted(set(info["classes"]))
         if kinds.get("_depth", 0) >= 2:
